@@ -213,7 +213,7 @@ pub fn exec<W: World>(mk: &dyn Fn() -> W, prop: &str, choices: &[usize]) -> Exec
         }
     }
     if std::env::var_os("A10MC_TRACE_HIST").is_some() {
-        eprintln!("HIST {history:?} -> {:?}", violations.iter().map(|v| format!("{}:{}", v.prop, v.sig)).collect::<Vec<_>>());
+        eprintln!("HIST key={key:016x} {history:?} -> {:?}", violations.iter().map(|v| format!("{}:{}", v.prop, v.sig)).collect::<Vec<_>>());
     }
     ExecResult { violations, history, enabled, key, observation, transitions, bad_choice, end_only }
 }
@@ -318,7 +318,7 @@ fn dfs<W: World>(
     if depth >= b.depth {
         return;
     }
-    if b.merge && depth > b.d_all {
+    if b.merge && depth > b.d_all && std::env::var_os("A10MC_NO_MERGE").is_none() {
         let remaining = b.depth - depth;
         // Include the deviation budget left in the key.
         let k = r.key ^ ((b.dev.saturating_sub(cost) as u64).wrapping_mul(0x9E3779B97F4A7C15));
